@@ -865,6 +865,18 @@ impl<'a> Gen<'a> {
         FileSt::Text(self.rng.pick(&docs).clone())
     }
 
+    /// A replacement text for the user's auto-correct list: normally Avro-style Latin
+    /// text, but a user may just as well enter the Bengali text (or an emoji) directly.
+    pub fn autocorrect_value(&mut self) -> String {
+        match self.rng.weighted(&[70, 12, 8, 5, 5]) {
+            0 => self.random_letters(2, 6).to_ascii_lowercase(),
+            1 => "\u{09B8}\u{09BE}\u{09B0}".to_string(),
+            2 => format!("{}\u{0995}\u{09BF}", self.random_letters(1, 3).to_ascii_lowercase()),
+            3 => "\u{1F600}".to_string(),
+            _ => "caf\u{00E9}".to_string(),
+        }
+    }
+
     fn gen_userfile_faults(&mut self) -> Plan {
         let (full, small) = match self.tier {
             Tier::Quick => (4, 96),
@@ -1012,7 +1024,8 @@ impl<'a> Gen<'a> {
                     // the editor rewrites the user's auto-correct list (valid document)
                     let w = self.rng.pick(&words).clone();
                     let core: String = w.chars().filter(|c| c.is_ascii_alphabetic()).collect();
-                    let doc = format!("{{\"{}\":\"{}\"}}", core, self.random_letters(2, 5).to_ascii_lowercase());
+                    let value = self.autocorrect_value();
+                    let doc = serde_json::json!({ core: value }).to_string();
                     ops.push(Op::Clock { dt: 1_000_000_000 });
                     ops.push(Op::SetFile { file: FileId::Autocorrect, st: FileSt::Text(doc), mt: Mt::Now });
                 }
@@ -1087,7 +1100,8 @@ impl<'a> Gen<'a> {
             let core: String = w.chars().filter(|c| c.is_ascii_alphabetic()).collect();
             if core.is_empty() { continue; }
             if self.rng.pct(75) || ac.is_empty() {
-                ac.insert(core, serde_json::Value::String(self.random_letters(2, 6).to_ascii_lowercase()));
+                let v = self.autocorrect_value();
+                ac.insert(core, serde_json::Value::String(v));
             } else {
                 let k = ac.keys().next().cloned().unwrap();
                 ac.remove(&k);
